@@ -266,6 +266,14 @@ class Root(object):
     stream._cp_config = {'response.stream': True}
 
     @cherrypy.expose
+    def gzstream(self, *args, **kw):     # tools.gzip + tools.etags over a streamed body
+        def content():
+            for i in range(5):
+                yield b'line %d of a streamed body\n' % i
+        return content()
+    gzstream._cp_config = {'response.stream': True}
+
+    @cherrypy.expose
     def combo(self, *args, **kw):
         cherrypy.session['n'] = cherrypy.session.get('n', 0) + 1
         if kw.get('regen'):
@@ -397,6 +405,8 @@ def setup():
         '/tsx': {'tools.trailing_slash.extra': True},
         '/limit': {'request.body.maxbytes': 1000},
         '/enc': {'tools.encode.on': True},
+        '/gzstream': {'tools.gzip.on': True, 'tools.gzip.mime_types': ['text/*'], 'tools.etags.on': True,
+                      'tools.etags.autotags': True},
         '/lcache': {'tools.caching.on': True, 'tools.caching.antistampede_timeout': 0.001, 'tools.etags.on': True,
                     'tools.etags.autotags': True},
         '/szip': {'tools.staticdir.on': True, 'tools.staticdir.dir': static, 'tools.staticdir.index': 'index.html',
@@ -536,7 +546,8 @@ class _Hang(BaseException):
     """Raised by the per-request alarm: the code under test did not answer within REQUEST_TIMEOUT seconds."""
 
 
-REQUEST_TIMEOUT = 20
+REQUEST_TIMEOUT = 60
+HANG = {'n': 0}      # requests that did not answer; after the first the timeout shrinks, after six nothing more is run
 
 
 def _on_alarm(signum, frame):
@@ -552,6 +563,12 @@ def call(case):
     st = setup()
     cap = st['cap']
     del cap.seen[:]
+    hang_obs = {'status': 598, 'exc': {'module': 'harness', 'function': 'timeout', 'exc': 'Hang', 'mro': [], 'netloc': False,
+                                       'msg': 'no answer within %ds' % REQUEST_TIMEOUT}, 'escaped': True, 'headers': [],
+                'malformed': None}
+    if HANG['n'] >= 6:
+        hang_obs['exc']['msg'] = 'not run: the code under test already hung on %d requests' % HANG['n']
+        return hang_obs
     env = build_environ(case)
     got = {'calls': 0}
 
@@ -572,7 +589,7 @@ def call(case):
         use_alarm = False
     if use_alarm:
         old = signal.signal(signal.SIGALRM, _on_alarm)
-        signal.setitimer(signal.ITIMER_REAL, REQUEST_TIMEOUT)
+        signal.setitimer(signal.ITIMER_REAL, globals()['REQUEST_TIMEOUT'])
     try:
         try:
             it = st['app'](env, start_response)
@@ -586,9 +603,9 @@ def call(case):
                 if hasattr(it, 'close'):
                     it.close()
         except _Hang:
-            return {'status': 598, 'exc': {'module': 'harness', 'function': 'timeout', 'exc': 'Hang', 'mro': [],
-                                           'msg': 'no answer within %ds' % REQUEST_TIMEOUT, 'netloc': False},
-                    'escaped': True, 'headers': [], 'malformed': None}
+            HANG['n'] += 1
+            globals()['REQUEST_TIMEOUT'] = 3
+            return hang_obs
         except Exception:
             escaped = describe_exc(*sys.exc_info())
     finally:
